@@ -116,7 +116,12 @@ def replace_typevars(ty: t.Any,
     if not len(args):
         return ty
 
-    args = (replace_typevars(ty, replacements) for ty in args)
+    new_args = tuple(replace_typevars(ty, replacements) for ty in args)
+    if all(new is old for (new, old) in zip(new_args, args)):
+        # nothing to replace inside: keep the type as written. Subscripting again would go through
+        # typing's cache, which compares by equality (Union[A, B] == Union[B, A])
+        return ty
+    args = new_args
 
     if base is t.Union:
         args = tuple(flatten_union_args(args))
